@@ -97,7 +97,11 @@ def make_world(g, tag):
     named = []
     for k in range(r.randint(0, 2)):
         content = r.choice(['active', '123', '{"b":1,"a":2}', 'true', 'null', '', '[1, 2]', 'say "hi"', ' x ', '1e3', 'a\nb'])
-        form = r.choice(['vnstr', 'vnbytes'])
+        form = r.choice(['vnstr', 'vnbytes', 'vptr', 'vmapraw'])
+        if form == 'vptr':
+            content = str(r.choice([1999, 5, 120000]))
+        if form == 'vmapraw':
+            content = r.choice(['{"b":1,"a":2}', '{"z":{"y":1,"x":2},"k":[{"b":1,"a":2}]}', '[{"b":1,"a":2}]'])
         w.add('begin %d %s' % (95 + k, hx(b'TestNamed%d' % k)))
         named.append((w.add('%s 1 %d %s %s' % (kind, 95 + k, form, hx(content))), k, form, content))
         w.add('end %d' % (95 + k))
@@ -127,7 +131,13 @@ def make_world(g, tag):
         fs0 = parse_fs(raw)
         for i, k, form, content in named:
             res = Line(ww.impl[i])
-            want = content if form == 'vnstr' else base64.b64encode(content.encode()).decode()
+            if form == 'vptr':
+                # passed by value: the pointer-receiver MarshalJSON of the field is not used by json.Marshal
+                want = {'id': 'o-1', 'total': {'Cents': int(content)}}
+            elif form == 'vmapraw':
+                want = {'zeta': json.loads(content), 'alpha': 1, 'm': {'z': 1, 'a': 2}}
+            else:
+                want = content if form == 'vnstr' else base64.b64encode(content.encode()).decode()
             if [e for e, _ in res.events] != ['L']:
                 return 'a Go value of a named %s type (%r) was not recorded: %r' % ('string' if form == 'vnstr' else '[]byte', content, [(e, x[:40]) for e, x in res.events])
             if kind == 'json':
@@ -141,7 +151,17 @@ def make_world(g, tag):
             except Exception as e:
                 return 'named-type Go value %r stored as %r' % (content, body)
             if got != want:
-                return 'named-type Go value %r is stored as %r, not as the JSON string of its content' % (content, body[:60])
+                return 'Go value (%s, %r) is stored as %r, not as its standard JSON encoding' % (form, content, body[:80])
+            if form == 'vmapraw' and sort_on:
+                # the default options sort the members at every depth, also inside pre-encoded JSON
+                def sorted_everywhere(x):
+                    if isinstance(x, dict):
+                        return list(x) == sorted(x) and all(sorted_everywhere(v_) for v_ in x.values())
+                    if isinstance(x, list):
+                        return all(sorted_everywhere(v_) for v_ in x)
+                    return True
+                if not sorted_everywhere(json.loads(body.decode(), object_pairs_hook=dict)):
+                    return 'members of a Go map value are not stored in sorted order: %r' % body[:120]
         for i in idx:
             if any(k == 'X' for k, _ in Line(ww.impl[i]).events):
                 return 'op %d: the []byte passed by the caller was modified by the call (a second use of the same slice would fail)' % i
